@@ -803,7 +803,7 @@ def check_C05(c):
 
 CHECKS = {"C01": check_C01, "C02": check_C02, "C03": check_C03, "C04": check_C04, "C13": check_C13, "C06": check_C06, "C07": check_C07, "C11": check_C11, "C12": check_C12, "C08": check_C08, "C09": check_C09, "C10": check_C10, "C05": check_C05, "C15": check_C15, "C14": check_C14, "C16": check_C16, "C20": check_C20, "C17": check_C17, "C19": check_C19, "C18": check_C18}
 
-HOOK_COMMITS = []
+HOOK_COMMITS = ["5b395c2", "a24d9a3"]
 NOT_YET = {}
 LEVELS = {
     "C02": {"ref": "DESIGN.md 4 C02",
@@ -879,8 +879,8 @@ LEVELS = {
             "text": "model checking of recorded behaviours: every line of every recorded history must be a step of the specification and the observation of ALL live tensors must equal the specification's state, so a corruption of a tensor other than the destination, of a caller's slice, or a pool double-return is rejected at the line where it happens",
             "note": "randomised histories (seeded), not exhaustive; integer-valued data; inputs of listed findings are not generated"},
     "C18": {"ref": "DESIGN.md 4 C18",
-            "technique": "spec/Conc.tla instantiated with write-sets measured on the real code (hooks), all interleavings explored by TLC; race-detector monitoring of seeded concurrent programs against sequential results",
-            "text": "model checking of interleavings for a model whose per-operation shared accesses are measured from the implementation (write-set conformance), plus exploration: seeded concurrent programs and a pairwise stress of the read-only alphabet under the Go race detector with results compared to the sequential run",
+            "technique": "spec/Conc.tla instantiated with the writes to shared operands and the pool traffic (option, scalar-header and tensor-struct pools, objects with identity) measured on the real code through hooks, all interleavings explored by TLC (SharedNeverWritten, NoReadDuringForeignWrite, ResultsSequential, PoolExclusive); pool protocol checked on the measured events; race-detector monitoring of seeded concurrent programs against sequential results",
+            "text": "model checking of interleavings for a model whose per-operation shared accesses and pool traffic are measured from the implementation (write-set and pool-protocol conformance), plus exploration: seeded concurrent programs and a pairwise stress of the alphabet (read-only operations on shared tensors and option-bearing operations on own tensors) under the Go race detector with results compared to the sequential run",
             "note": "interleavings exhaustive for 2-3 goroutines x <=2 operations in the model; the race detector observes, it does not prove"},
     "C01": {"ref": "DESIGN.md 4 C01",
             "technique": "TLC-enumerated behaviours of the TLA+ tensor machine (MC_addr) replayed on the real library",
